@@ -22,6 +22,9 @@ NEUTRAL = ["remove_types", "remove_compound_assignment", "remove_continue", "rem
            "convert_local_function_to_assign", "convert_function_to_assignment", "remove_method_call", "convert_square_root_call"]
 
 
+OPEN_FINDING_RULES = ["remove_nil_declaration", "remove_unused_variable", "remove_unused_if_branch", "convert_local_function_to_assign", "remove_empty_do"]
+
+
 def rules_text(names):
     return "[" + ", ".join(n if n.startswith("{") else "'%s'" % n for n in names) + "]"
 
@@ -81,6 +84,14 @@ def run(tier):
         gen += g2.generated
     if len(layouts) < 1000:
         raise vlib.ToolError("only %d layouts" % len(layouts))
+    # periodic layouts: a line break / comment in front of every stride-th token (together: in front of EVERY token)
+    gd = tlc("mc/MC_Layout", workers=4, timeout=1800, env={"MODE": "dense"}, xmx="6g")
+    tlc_ok(gd, "MC_Layout(dense)")
+    dense = gd.tagged("CASE")
+    st += gd.distinct
+    gen += gd.generated
+    if len(dense) < 100:
+        raise vlib.ToolError("only %d dense layouts" % len(dense))
     cfgs = configs(tier, rng)
     per_cfg = 60 if tier == "quick" else 400
     cases = []
@@ -89,6 +100,10 @@ def run(tier):
         ls = layouts if per_cfg >= len(layouts) else rng.sample(layouts, per_cfg)
         if label in ("default", "default+neutral"):
             ls = layouts if tier == "thorough" else rng.sample(layouts, 600)
+        # a dense layout sets off every recorded finding of a pipeline at once and the displacement cascades through the
+        # file (no blank line absorbs it), so the periodic layouts go to the pipelines WITHOUT a rule that has an open finding
+        if not any(("'%s'" % r) in rules_text(rules) for r in OPEN_FINDING_RULES):
+            ls = ls + (dense if tier == "thorough" else rng.sample(dense, 24 if label.startswith(("single", "neutral1")) else 10))
         for li, l in enumerate(ls):
             cases.append({"id": "k%d_%d" % (ci, li), "src": l["src"], "kind": "markers", "rules": rules_text(rules), "shift": 0,
                           "names": 0 if "rename_variables" in rules else 1,
@@ -131,7 +146,7 @@ def run(tier):
         "samples": [{"rules": cases[0]["rules"], "src": cases[0]["src"][:200]}, {"rules": cases[-1]["rules"], "src": cases[-1]["src"][:200]}],
         "states": st + res.distinct, "transitions": gen + res.generated,
         "design_model_states (TokenGen!LineKept under Pre, all item sequences of length <= 3)": d.distinct,
-        "layouts": len(layouts), "pipelines": len(cfgs) + 1, "markers_checked": nmarkers, "runs_failed_with_an_error (not judged)": skipped,
+        "layouts": len(layouts), "dense_layouts": len(dense), "pipelines": len(cfgs) + 1, "markers_checked": nmarkers, "runs_failed_with_an_error (not judged)": skipped,
         "exhaustive": False,
     })
     rep.assumptions += ["markers are string literals 'L<line>s<slot>' (unique per program); a copy of an expression made by a rule is new code: a marker is misplaced only when no occurrence of it is on its line; a literal that a rule folds into a longer string (compute_expression on 'L12' .. 'x') is new code and not a marker any more",
